@@ -374,6 +374,17 @@ void run_C05(void) {
       for (uint64_t as = rs + 1; as <= SMAX; as++)
         for (int fam = FAM_CHAIN_POS; fam <= FAM_CHAIN_HI; fam++)
           one_vec_case("vec_znx_normalize_base2k", V_SMALL, 8, k, rs, as, 0, 1, fam, 0, 0, 0, 0, 1, 100);
+  // many limbs (9..15): loops over limbs that are unrolled or blocked change regime above the small box
+  {
+    static const uint64_t BIGS[][2] = {{9, 15}, {15, 9}, {12, 12}, {1, 15}, {15, 15}, {10, 11}, {13, 7}, {7, 13}, {16, 16}, {2, 16}};
+    for (unsigned k = 1; k <= 62; k += (th ? 1 : 2))
+      for (size_t q = 0; q < ARRAY_LEN(BIGS); q++) {
+        ctr++;
+        if (BIGS[q][1] * k > 900) continue;  // the digit oracle holds 1024 bits
+        one_vec_case("vec_znx_normalize_base2k", V_SMALL, smallN[ctr % 6], k, BIGS[q][0], BIGS[q][1], ctr % 4, (ctr / 4) % 4, (int)(ctr % N_FAM), 0, 0, 0, 0, (int)(ctr & 1), 200);
+        if (BIGS[q][0] <= BIGS[q][1] && (ctr % 3) == 0) one_vec_case("vec_znx_normalize_base2k", V_SMALL, 8, k, BIGS[q][0], BIGS[q][1], 0, 0, (int)(ctr % N_FAM), 1, 0, 0, 0, 1, 200);
+      }
+  }
   // in place (res == a, same stride), equal and unequal sizes; generic dispatch; large N
   for (unsigned k = 1; k <= 62; k += (th ? 1 : 3))
     for (uint64_t rs = 0; rs <= 4; rs++)
